@@ -296,6 +296,82 @@ def many_files(R, rng, tier):
     shutil.rmtree(d, ignore_errors=True)
 
 
+def check_faults(R, rng, tier):
+    """A check that raises while one file is scanned (the tester logs it and goes on) costs that file's findings of that check
+    only: files scanned afterwards keep all of theirs."""
+    from bandit.core import extension_loader
+    d = os.path.join(impl.scratch(), "chk")
+    os.makedirs(d, exist_ok=True)
+    srcs = {"a_first.py": "assert a\nexec(x)\n", "m_faulty.py": "assert m\nexec(y)\n", "z_after.py": "assert z\nexec(w)\nimport pickle\n"}
+    paths = []
+    for fn, src in srcs.items():
+        open(os.path.join(d, fn), "w").write(src)
+        paths.append(os.path.join(d, fn))
+    for victim in ("assert_used", "exec_used"):
+        plug = [p for p in extension_loader.MANAGER.plugins if p.name == victim][0]
+        mgr = impl.make_manager()
+        mgr.files_list = list(paths)
+        real = plug.plugin
+        tests = [t for lst in mgr.b_ts.tests.values() for t in lst if getattr(t, "__name__", None) == real.__name__]
+
+        def wrapper(context, *a, _real=real, **k):
+            if str(context.filename).endswith("m_faulty.py"):
+                raise RuntimeError("injected fault in %s" % victim)
+            return _real(context, *a, **k)
+        for attr in ("_checks", "_test_id", "_takes_config", "_config", "__name__"):
+            if hasattr(real, attr):
+                setattr(wrapper, attr, getattr(real, attr))
+        # swap the function inside the test set's tables
+        for lst in mgr.b_ts.tests.values():
+            for i_, t in enumerate(lst):
+                if t is real:
+                    lst[i_] = wrapper
+        escaped = None
+        try:
+            mgr.run_tests()
+        except BaseException as e:  # noqa
+            escaped = type(e).__name__
+        got = {}
+        for i_ in mgr.results:
+            got.setdefault(os.path.basename(i_.fname), []).append(i_.test_id)
+        tid = real._test_id
+        R.case(("check-fault", victim), nontrivial=True, sample={"failing_check": victim, "findings": got})
+        R.count("stage:AtCheck")
+        inp = {"files": list(srcs), "check_raising_in": "m_faulty.py", "check": victim}
+        if escaped:
+            R.violations.append({"what": "a check raising in one file aborts the scan (%s)" % escaped, "input": inp, "observed": escaped, "signature": None})
+            continue
+        for fn in ("a_first.py", "z_after.py"):
+            if tid not in got.get(fn, []):
+                R.violations.append({"what": "a check that raised while m_faulty.py was scanned no longer reports in %s (findings of %s lost)" % (fn, tid),
+                                     "input": inp, "observed": got, "signature": None})
+        other = "B102" if tid == "B101" else "B101"
+        if other not in got.get("m_faulty.py", []):
+            R.violations.append({"what": "a raising check cost the file the findings of another check (%s)" % other, "input": inp, "observed": got, "signature": None})
+        if [p for p in paths if p not in mgr.files_list]:
+            R.violations.append({"what": "a raising check made the file count as skipped", "input": inp, "observed": mgr.skipped, "signature": None})
+
+
+def odd_names(R, rng, tier):
+    """File names that are not valid UTF-8 (Python carries them with surrogate escapes): every format still produces a report."""
+    d = os.path.join(impl.scratch(), "odd").encode()
+    os.makedirs(d, exist_ok=True)
+    try:
+        open(os.path.join(d, b"caf\xe9.py"), "w").write("assert a\n")
+        open(os.path.join(d, b"ok.py"), "w").write("assert b\n")
+    except OSError:
+        return
+    for fmt in ("json", "yaml", "csv", "xml", "html", "txt", "sarif", "custom"):
+        out = os.path.join(impl.scratch(), "odd.out")
+        r = climain.run_main(["-q", "-r", "-f", fmt, "-o", out, "--exit-zero", d.decode()])
+        R.case(("odd-name", fmt), nontrivial=True, sample={"format": fmt, "exit": r["exit"], "exception": r["exception"]})
+        R.count("odd-names")
+        if r["exception"] or r["exit"] != 0:
+            R.violations.append({"what": "no %s report for a directory holding a file whose name is not valid UTF-8 (%s)" % (fmt, r["exception"] or "exit %s" % r["exit"]),
+                                 "input": {"names": ["caf\\xe9.py", "ok.py"], "format": fmt}, "observed": (r["traceback"] or "")[-400:],
+                                 "signature": None})
+
+
 def run(R, replay=None):
     rng = random.Random(R.seed)
     for f in core.gen():
@@ -313,4 +389,6 @@ def run(R, replay=None):
     fault_cases(R, rng, R.tier)
     byte_cases(R, rng, R.tier)
     many_files(R, rng, R.tier)
+    check_faults(R, rng, R.tier)
+    odd_names(R, rng, R.tier)
     R.disagreements_checked = R.evaluations
